@@ -45,6 +45,7 @@ MCArgs(name, h, dep) ==
     [] name = "KvOr"        -> {[obj |-> "a", other |-> V] : V \in Others(U)}
     [] name = "KvAnd"       -> {[obj |-> "a", other |-> V] : V \in {W \in Others(U) : Deg(W) = Deg(U)}}
     [] name = "KvSplit"     -> {[obj |-> "a", nodes |-> n] : n \in SeqsUpTo(NodePool(U), IF Rich THEN 2 ELSE 1)}
+    [] name = "KvConvert"   -> {[obj |-> "a", cls |-> c] : c \in {"int", "Fraction"}}
     [] name = "KvCopy"      -> {[obj |-> "a"]}
     [] name = "FnBasis"     -> IF dep = 0 THEN {} ELSE
                                {[obj |-> "a", weights |-> <<>>, j |-> Deg(U), u |-> u] : u \in ParamGrid(U, 1)}
